@@ -24,9 +24,12 @@ def base_model():
                                    mkfield('ou', R(None, 'Ou')), mkfield('lou', L(R(None, 'Ou'), None, None)),
                                    mkfield('root', R(None, 'Root')), mkfield('nroot', N(R(None, 'Root'))),
                                    mkfield('uu', R(None, 'Uu')), mkfield('cu', R(None, 'Cu')), mkfield('child', N(R(None, 'Child'))),
-                                   mkfield('ai', N(R(None, 'Ai')))]),
+                                   mkfield('ai', N(R(None, 'Ai'))),
+                                   mkfield('oc', N(R(None, 'OuChild'))), mkfield('og', N(L(R(None, 'OuGrand'), None, None)))]),
         mkunion('Ou', tags=[mktag('v'), mktag('w'), mktag('t', I32), mktag('s', R(None, 'Inner')), mktag('ns', N(R(None, 'Inner'))),
                             mktag('r', R(None, 'Root'))]),
+        mkunion('OuChild', parent=R(None, 'Ou'), tags=[mktag('cx'), mktag('cy', I32)]),
+        mkunion('OuGrand', parent=R(None, 'OuChild'), tags=[mktag('gx')]),
         mkunion('Uu', tags=[mktag('x'), mktag('o', R(None, 'Ou')), mktag('no', N(R(None, 'Ou'))), mktag('lo', L(R(None, 'Ou'), None, None))]),
         mkunion('Cu', closed=True, tags=[mktag('c1'), mktag('c2', R(None, 'Inner'))]),
         mkroute('rr', 1, R(None, 'Inner'), R(None, 'Ou'), VOID),
